@@ -114,7 +114,7 @@ fn specs() -> Vec<CheckSpec> {
     CheckSpec {
         id: "C06",
         profile: Profile::Core,
-        more_profiles: &[Profile::TwoHop, Profile::Adaptive],
+        more_profiles: &[Profile::TwoHop, Profile::Adaptive, Profile::T22],
         mk: mk_c06,
         level: "exploration",
         rule: "HIST every landed swap's per-step trace (hook H1) must chain from the pool's pre-state to its post-state and is re-computed step by step with big integers (curve amounts, fee, protocol share, LP growth increment), then reconciled with account deltas, vault balances and the Traded event; protocol-fee collections must pay exactly the owed amounts and zero them; a case is one (instruction, direction, mode, #steps, #crossed ticks, zero-liquidity step, ended at limit, explicit limit, spacing, fee class, protocol fee on) tuple",
